@@ -589,6 +589,48 @@ fn iter_generic_on<B: Buffer, I: Iterator<Item = u8>>(mut it: sml_rs::transport:
     format!("{} | {}", join_sp(items), join_sp(tail))
 }
 
+fn nonfused(s1: &[u8], s2: &[u8]) -> NonFused {
+    let mut items: Vec<Option<u8>> = s1.iter().map(|b| Some(*b)).collect();
+    items.push(None);
+    items.extend(s2.iter().map(|b| Some(*b)));
+    NonFused { items, pos: 0 }
+}
+
+fn do_iterx(args: &[&str]) -> Option<String> {
+    let cap = parse_cap(args.first()?)?;
+    let s1 = untok(args.get(1)?)?;
+    let s2 = untok(args.get(2)?)?;
+    let extra: usize = args.get(3)?.parse().ok()?;
+    Some(with_cap!(cap, B, mk => iter_generic_on::<B, _>(decode_streaming::<B>(nonfused(&s1, &s2)), s1.len(), extra)))
+}
+
+fn do_encix(args: &[&str]) -> Option<String> {
+    let s1 = untok(args.first()?)?;
+    let s2 = untok(args.get(1)?)?;
+    let extra: usize = args.get(2)?.parse().ok()?;
+    let mut it = encode_streaming(nonfused(&s1, &s2));
+    let mut out = Vec::new();
+    let mut n = 0;
+    loop {
+        if n > 2 * s1.len() + 64 {
+            return Some("nonterminating".to_string());
+        }
+        n += 1;
+        match it.next() {
+            Some(b) => out.push(b),
+            None => break,
+        }
+    }
+    let mut t = String::new();
+    for _ in 0..extra {
+        t.push(match it.next() {
+            None => 'N',
+            Some(_) => 'B',
+        });
+    }
+    Some(format!("{} {}", hex_or_dash(&out), if t.is_empty() { "-".to_string() } else { t }))
+}
+
 fn do_iter(args: &[&str]) -> Option<String> {
     let cap = parse_cap(args.first()?)?;
     let s = untok(args.get(1)?)?;
@@ -995,6 +1037,8 @@ pub fn run(line: &str) -> ImplOut {
         "dec" => do_dec(args),
         "decode" => do_decode(args),
         "iter" => do_iter(args),
+        "iterx" => do_iterx(args),
+        "encix" => do_encix(args),
         "rdr" => do_sml(args, true),
         "sml" => do_sml(args, false),
         "abuf" => do_abuf(args),
